@@ -429,3 +429,15 @@ def run(ctx):
                             found_input=oracle(cases[i], results[i]["ok"]) is not None)
     else:
         ctx.obligation("correspondence:cases", "correspondence", False, "Model.vo not built")
+
+
+MANIFEST = {
+    "text": "Coq 8.16 theorems over leaf formulas regenerated from /repo by a fail-closed translator (n^d cells, row-major order, exact "
+            "tiling of [lo,hi] by contiguous disjoint cells, results keyed by job number for every completion order, sensitivity counts "
+            "and sorting, shape under a 1/2-accurate root, binary64 count on 1..131072 by a kernel-checked sweep) plus bit-exact vm_compute "
+            "correspondence of the model with the running code and a direct property oracle on every generated case",
+    "note": "Trusted: Coq kernel + vm_compute, primitive floats, the translator pyexpr2coq.py, the correspondence harness; libm pow is an "
+            "oracle; tiling is proved over exact rationals (binary64 cells are compared bit-for-bit by correspondence only); completion "
+            "orders are steered through a permuting process class, not through real OS scheduling.",
+    "technique": "machine-checked proof in Coq (translator-regenerated model) + vm_compute correspondence",
+}
